@@ -2,6 +2,7 @@
 impl Segment {
     // Segment::is_expired reads the last message back from disk; its decision is the business of C14 (unit retention).
     pub uninterp spec fn spec_is_expired(&self, now: IggyTimestamp) -> bool;
+    // LINKED: units/retention/lemmas.rs, harness [C14.link.offsets.is_expired], proves this contract from the real function (mirror edits there)
     #[verifier::external_body]
     pub fn is_expired(&self, now: IggyTimestamp) -> (r: bool)
         ensures r == self.spec_is_expired(now), !self.is_closed ==> !r,
